@@ -96,7 +96,7 @@ static void run_sequence(const std::vector<int>& seq, bool abbr, int variant_bas
 int main(int argc, char** argv) {
    vf::init(argc, argv);
    if (vf::replaying()) { vf::ctx().only = strtoll(vf::replay_case().c_str(), nullptr, 10); vf::ctx().have_replay = false; }
-   int maxlen = vf::thorough() ? 5 : 4; uint64_t seqs = 0;
+   int maxlen = vf::deep() ? 6 : vf::thorough() ? 5 : 4; uint64_t seqs = 0;
    for (int len = 1; len <= maxlen; ++len) {
       vf::Odometer od(std::vector<unsigned>(len, NPOOL));
       while (od.next()) {
